@@ -497,6 +497,11 @@ func checkAndExtractFieldType(paths []string, typ reflect.Type) (extracted refle
 				return nil, false, fmt.Errorf("type[%v] is a nested pointer, field[%s] cannot be reached through it", extracted, field)
 			}
 
+			// ... and only into a struct: a pointer to an interface (or to anything else) is a dead end
+			if extracted.Elem().Kind() != reflect.Struct {
+				return nil, false, fmt.Errorf("type[%v] is not a pointer to a struct, field[%s] cannot be reached through it", extracted, field)
+			}
+
 			extracted = extracted.Elem()
 		}
 
